@@ -34,6 +34,8 @@ pub fn intern(s: &str) -> &'static str {
 pub struct World<'a> {
     pub syms: &'a [char],
     pub scanners: Vec<Scanner>,
+    /// build_uncached() twins of the scanners built with "twin": true (C13)
+    pub twins: Vec<Option<Scanner>>,
     pub iters: Vec<It>,
     pub inputs: Vec<&'static str>,
 }
@@ -54,7 +56,7 @@ pub fn panic_msg(e: Box<dyn std::any::Any + Send>) -> String {
 
 impl<'a> World<'a> {
     pub fn new(syms: &'a [char]) -> Self {
-        World { syms, scanners: vec![], iters: vec![], inputs: vec![] }
+        World { syms, scanners: vec![], twins: vec![], iters: vec![], inputs: vec![] }
     }
 
     pub fn word(&self, w: &Value) -> String {
@@ -98,9 +100,14 @@ impl<'a> World<'a> {
                 let ci = ev["cfg"].as_u64().unwrap();
                 let cfg = cfg_of(ci).expect("harness: unknown configuration index");
                 let cached = ev.get("cached").and_then(|b| b.as_bool()).unwrap_or(false);
+                let twin = ev.get("twin").and_then(|b| b.as_bool()).unwrap_or(false);
                 match cfg.build(self.syms, cached) {
                     Ok(s) => {
                         self.scanners.push(s);
+                        self.twins.push(if twin { cfg.build(self.syms, false).ok() } else { None });
+                        if twin && self.twins.last().unwrap().is_none() {
+                            return json!({"ok": true, "twin_failed": true});
+                        }
                         json!({"ok": true})
                     }
                     Err(e) => json!({"ok": false, "err": e.to_string()}),
@@ -121,6 +128,14 @@ impl<'a> World<'a> {
                 self.inputs.push(input);
                 self.iters.push(if want_pos { It::Pos(fm.with_positions()) } else { It::Plain(fm) });
                 json!({})
+            }
+            "scan" => {
+                // a complete scan of an input with a fresh iterator (and with the uncached twin)
+                let s = ev["sc"].as_u64().unwrap() as usize - 1;
+                let text = self.word(&ev["w"]);
+                let toks: Vec<Value> = self.scanners[s].find_iter(&text).map(|m| tok(&m)).collect();
+                let twin: Option<Vec<Value>> = self.twins.get(s).and_then(|t| t.as_ref()).map(|t| t.find_iter(&text).map(|m| tok(&m)).collect());
+                json!({"toks": toks, "twin": twin})
             }
             "next" => {
                 let (res, mode) = match &mut self.iters[h.unwrap()] {
@@ -255,9 +270,21 @@ pub fn differs(exp: &Value, obs: &Value) -> Option<String> {
             if obs["ok"].as_bool() != Some(want) {
                 return Some(format!("build: specification ok={want}, code {}", obs));
             }
+            if obs.get("twin_failed").is_some() {
+                return Some("build() succeeded but build_uncached() of the same modes failed".to_string());
+            }
             None
         }
         "newiter" => None,
+        "scan" => {
+            if exp["toks"] != obs["toks"] {
+                return Some(format!("tokens of a full scan: specification {}, code {}", exp["toks"], obs["toks"]));
+            }
+            if !obs["twin"].is_null() && obs["twin"] != obs["toks"] {
+                return Some(format!("cached scanner {} differs from its build_uncached twin {}", obs["toks"], obs["twin"]));
+            }
+            None
+        }
         "next" => field("res").or_else(|| field("mode")),
         "nextpos" => {
             if let Some(d) = field("res").or_else(|| field("mode")) {
